@@ -367,8 +367,8 @@ func (c *Ctx) RunSkeletons(opt SkelOpts) {
 			for _, n := range o.sk.Notes {
 				if hasPrefix(n.Rule, opt.Notes) {
 					pos := c.Prog.Pos(n.Pos)
-					if lit := src.Lit; n.Pos >= lit.Pos() && n.Pos <= lit.End() {
-						pos = src.Line(int(n.Pos - lit.Pos() - 1))
+					if off, inText := src.OffsetOf(n.Pos); inText {
+						pos = src.Line(off)
 					}
 					run.Violate(core.Violation{Rule: n.Rule, Key: n.Key, Pos: pos, Msg: n.Msg, Env: envs})
 				}
